@@ -18,4 +18,9 @@ def genEnv (userClasses : ClassTable) (flags : List (String × List String)) : M
     delBr := Generated.delOneBranches
     flags := flags }
 
+/-- the re-spelling table of `_s_first_item` for the spec class `cls` ("Assign" / "Delete"), as far
+    as that class's `__init__` passes its path through the helper -/
+def genSFirst (cls : String) : List (String × String) :=
+  if Generated.sFirstItemCallers.contains cls then Generated.sFirstItem else []
+
 end Glom.Mut
